@@ -1979,8 +1979,6 @@ class FileBuilder:
             self._build_dirs.created_dirs() + cache_file_created_dirs)
         dirs_to_remove = set([os.path.normcase(dir_) for dir_ in created_dirs])
         dirs_to_remove.update(self._build_dirs.norm_cased_error_created_dirs())
-        for dir_ in self._old_cache.created_dirs():
-            dirs_to_remove.discard(os.path.normcase(dir_))
 
         # Remove every file we (re)built, as opposed to reused. This includes
         # output files from the previous build that we rebuilt; if they had any
